@@ -385,6 +385,9 @@ def run(chk):
             f(chk, ex, found)
         except X.Unsupported as e:
             chk.undecided.append(("helpers", "unsupported construct in glue: %s" % e))
+    from . import C16
+
+    C16.attach_helper_part(chk, glue.make_exec(chk), found)  # what a worker attaches to is the parent's sketch: same parameters
     pickle_precondition(chk, ex)
     chk.assumptions.update(glue.ASSUMED)
     chk.assumptions.add("ASSUMED: multiprocessing.Queue delivers each item exactly once; Process.start runs the target; SharedMemory by name gives the same bytes; the OS schedules")
